@@ -427,13 +427,18 @@ def observe_dim_map(rng, thorough):
     import quimb as qu
 
     recs = []
-    shapes = [(2,), (3,), (2, 2), (2, 3), (3, 2), (2, 2, 2)] + ([(1, 3), (3, 1, 2), (2, 2, 2, 2)] if thorough else [])
+    # 1D, 2D (special-cased in quimb) and the generic n-D branch (_dim_map_nd): lattices of 3 and 4 levels
+    # whose extents differ (incl. extent 1), so that every stride is distinguishable from its neighbours
+    shapes = [(2,), (3,), (2, 2), (2, 3), (3, 2), (2, 2, 2), (1, 2, 3), (2, 1, 3), (2, 3, 2), (3, 2, 2), (2, 1, 3, 2)]
+    shapes += [(1, 3), (3, 1, 2), (2, 2, 2, 2), (3, 2, 1, 2), (2, 3, 4)] if thorough else []
     for shp in shapes:
         dims = rng.integers(2, 4, size=shp)
         dflat = [int(d) for d in dims.ravel()]
         rngs = [range(-1, s + 1) for s in shp]
         allc = list(itertools.product(*rngs))
         lists = [[c] for c in allc]
+        if not thorough and len(allc) > 100:
+            lists = lists[::2]
         for _ in range(40 if thorough else 14):
             k = int(rng.integers(2, 4))
             lists.append([allc[int(i)] for i in rng.integers(0, len(allc), size=k)])
@@ -454,17 +459,42 @@ def observe_dim_map(rng, thorough):
 
 
 def observe_lattice(rng, thorough):
-    """ikron / partial_trace addressed by coordinates on 2D (3D) lattices of subsystems."""
+    """ikron / partial_trace addressed by coordinates on 2D, 3D and 4D lattices of subsystems (nested dimension
+    lists); the deeper lattices have unequal extents (incl. extent 1) and non-trivial sites at non-zero middle
+    coordinates, so that a wrong stride in the flattening moves an operator to a visibly different site."""
     import quimb as qu
 
     recs = []
-    lattices = [np.array([[2, 3], [2, 2]]), np.array([[2, 2, 1], [3, 1, 2]])] + ([np.array([[[2, 1], [2, 2]], [[1, 3], [1, 2]]])] if thorough else [])
+    def lattice(shape, twos, three=None):
+        a = np.ones(shape, dtype=int)
+        for c in twos:
+            a[c] = 2
+        if three is not None:
+            a[three] = 3
+        return a
+
+    lattices = [np.array([[2, 3], [2, 2]]), np.array([[2, 2, 1], [3, 1, 2]]),
+                lattice((1, 2, 3), [(0, 0, 1), (0, 1, 2)], (0, 1, 0)),
+                lattice((2, 1, 3), [(0, 0, 1), (1, 0, 0), (1, 0, 2)]),
+                lattice((2, 3, 2), [(0, 1, 1), (1, 0, 0), (1, 2, 1), (0, 2, 0)]),
+                lattice((3, 2, 2), [(0, 1, 0), (2, 1, 1)], (1, 0, 1)),
+                lattice((2, 1, 3, 2), [(0, 0, 1, 1), (1, 0, 0, 1), (1, 0, 2, 0), (0, 0, 2, 1)])]
+    if thorough:
+        lattices += [np.array([[[2, 1], [2, 2]], [[1, 3], [1, 2]]]), lattice((2, 3, 4), [(0, 1, 2), (1, 0, 3), (1, 2, 1)])]
     for ci, lat in enumerate(lattices):
         shp = lat.shape
         dflat = [int(d) for d in lat.ravel()]
         D = _prod(dflat)
         allc = list(itertools.product(*[range(s) for s in shp]))
-        picks = [[c] for c in allc] + [list(p) for p in itertools.permutations(allc, 2)][:: (1 if thorough else 3)]
+        pairs = [list(p) for p in itertools.permutations(allc, 2)]
+        if len(shp) >= 3:
+            # all single sites; pairs: those of two non-trivial sites first, then a share of the rest
+            nt = [p for p in pairs if lat[p[0]] > 1 and lat[p[1]] > 1]
+            rest = [p for p in pairs if not (lat[p[0]] > 1 and lat[p[1]] > 1)]
+            pairs = nt[:: (1 if thorough else 2)] + rest[:: (5 if thorough else 23)]
+        else:
+            pairs = pairs[:: (1 if thorough else 3)]
+        picks = [[c] for c in allc] + pairs
         rho, psi = _irho(rng, D), _iket(rng, D)
         for pi, coos in enumerate(picks):
             ops = [_imat(rng, int(lat[c]), int(lat[c])) for c in coos]
@@ -477,6 +507,8 @@ def observe_lattice(rng, thorough):
                 var.append(("%s/%s/array" % (fmt, dt), dt, lambda vo=vo: qu.ikron(vo, lat, np.array(coos))))
             _emit(recs, base, var)
             for kind, x in (("dop", rho), ("ket", psi)):
+                if len(shp) >= 3 and not thorough and (pi + (kind == "ket")) % 2:
+                    continue  # quick tier, deep lattices: density operator and ket alternate
                 base = {"ev": "ptr2d", "tid": 200001 + ci, "x": _mat(x), "shape": list(shp), "dflat": dflat,
                         "coos": [[int(c_) for c_ in c] for c in coos], "kind": kind}
                 var = []
